@@ -208,7 +208,7 @@ class Ref:
         self.cands = frozenset(cands)
 
     def __repr__(self):
-        return "Ref(%s,%s)" % (self.t, sorted(self.cands))
+        return "Ref(%s,%s)" % (str(self.t)[:40].replace("\n", " "), sorted(self.cands))
 
 
 class SInt:
@@ -218,7 +218,7 @@ class SInt:
         self.t = t
 
     def __repr__(self):
-        return "SInt(%s)" % (self.t,)
+        return "SInt(%s)" % (str(self.t)[:40].replace("\n", " "),)
 
 
 class SBool:
@@ -228,7 +228,7 @@ class SBool:
         self.t = t
 
     def __repr__(self):
-        return "SBool(%s)" % (self.t,)
+        return "SBool(%s)" % (str(self.t)[:40].replace("\n", " "),)
 
 
 def mkbool(t):
@@ -274,7 +274,7 @@ class SAtom:
         self.dom = tuple(sorted(set(dom)))
 
     def __repr__(self):
-        return "SAtom(%s,%s)" % (self.t, [ATOMS.vals[i] for i in self.dom])
+        return "SAtom(%s,%s)" % (str(self.t)[:40].replace("\n", " "), [ATOMS.vals[i] for i in self.dom][:6])
 
 
 def atom_of(v):
